@@ -6,7 +6,7 @@ META = dict(
     level="model_checking",
     bounds=dict(
         quick="whole runs through the call() of Retry, Policy, RetryPolicy and async twins: N=3 scripted attempts over "
-              "success + {TRANSIENT, PERMANENT} x {exception, result} (mixed histories), symbolic max_attempts, "
+              "success + {TRANSIENT, PERMANENT} x {exception, result, a None result flagged by the result classifier} (mixed histories), symbolic max_attempts, "
               "per-class limit for TRANSIENT, sleep handler SLEEP/DEFER/ABORT, budget tokens; fresh exception/result "
               "object per attempt, identity (`is`) compared",
         thorough="N=4, plus UNKNOWN class with cap",
@@ -15,7 +15,7 @@ META = dict(
                  "which stop reason is valid is C03's subject; here the delivered fields must describe the final attempt"],
     outside=["attempt_timeout_s (a func-raised TimeoutError is replaced by _call_with_timeout on Python >= 3.11)"],
 )
-GOALS = ["return_first_success", "raise_last_exception", "exhausted_on_result", "scheduled_exc", "scheduled_res",
+GOALS = ["none_result_is_failure", "return_first_success", "raise_last_exception", "exhausted_on_result", "scheduled_exc", "scheduled_res",
          "mixed_exc_then_res", "mixed_res_then_exc", "aborted"]
 ENTRIES = ["retry.call", "aretry.call", "policy.call", "apolicy.call", "rp.call", "arp.call"]
 
@@ -63,6 +63,7 @@ def check_call(w, trace, result, sym):
         if obj.last_class is not fin["klass"]:
             return ("exhausted:last_class", f"last_class={obj.last_class}, final failure was {fin['klass']}")
         if fin["kind"] == "res":
+            sym.cover("none_result_is_failure", fin["obj"] is None)
             if obj.last_result is not fin["obj"] or obj.last_exception is not None:
                 return ("exhausted:last_result", f"last_result={obj.last_result!r} last_exception={obj.last_exception!r}; "
                                                  f"final attempt returned {fin['obj']!r}")
@@ -97,9 +98,9 @@ def jobs(tier):
     N = 3 if q else 4
     out = []
     for entry in ENTRIES:
-        for o1 in range(3):
+        for o1 in range(4):
             out.append(dict(name=f"run:{entry}:o1={o1}", harness="rv.props.c04:h_run",
-                            params=dict(entry=entry, N=N, kinds=["ok", "exc", "res"],
+                            params=dict(entry=entry, N=N, kinds=["ok", "exc", "res", "resnone"],
                                         classes=["TRANSIENT", "PERMANENT"] + ([] if q else ["UNKNOWN"]),
                                         limits=["TRANSIENT"], cap=None if q else "sym", handler=True, budget="sym",
                                         pin={"o1": o1}),
